@@ -69,28 +69,45 @@ fn line_changes(patched_file: &PatchedFile) -> Vec<LineChange> {
     line_changes
 }
 
-/// Returns sorted character ranges in `new` that represent changes from `old`.
+/// Returns sorted byte ranges in `new` that represent changes from `old`.
 fn line_diff(old: &str, new: &str) -> Vec<Range<usize>> {
     let mut result = Vec::new();
     let diff = similar::TextDiff::from_chars(old, new);
+    // The diff operates on characters while block positions are measured in bytes: map character
+    // indexes in `new` to byte offsets.
+    let byte_offsets: Vec<usize> = new
+        .char_indices()
+        .map(|(byte_offset, _)| byte_offset)
+        .chain(std::iter::once(new.len()))
+        .collect();
+    let chars_count = byte_offsets.len() - 1;
+    let byte_range = |start: usize, end: usize| -> Range<usize> {
+        if start >= chars_count {
+            // Past the end of the line (e.g. a deletion in a line that became empty).
+            let offset = new.len() + start - chars_count;
+            offset..offset + end - start
+        } else {
+            byte_offsets[start]..byte_offsets[end.min(chars_count)]
+        }
+    };
     let mut prev_op = None;
     for op in diff.ops() {
         match op {
             DiffOp::Delete { new_index, .. } => {
                 if prev_op.is_none_or(|c: &DiffOp| !matches!(c, DiffOp::Delete { .. })) {
-                    let idx = new.len().saturating_sub(1).min(*new_index);
-                    push_or_merge_range(&mut result, idx..idx + 1);
+                    let idx = chars_count.saturating_sub(1).min(*new_index);
+                    push_or_merge_range(&mut result, byte_range(idx, idx + 1));
                 }
             }
             DiffOp::Insert {
                 new_index, new_len, ..
             } => {
-                push_or_merge_range(&mut result, *new_index..(new_index + new_len));
+                push_or_merge_range(&mut result, byte_range(*new_index, new_index + new_len));
             }
             DiffOp::Replace {
                 new_index, new_len, ..
             } => {
-                push_or_merge_range(&mut result, *new_index..(new_index + new_len));
+                push_or_merge_range(&mut result, byte_range(*new_index, new_index + new_len));
             }
             DiffOp::Equal { .. } => {}
         }
